@@ -74,9 +74,33 @@ def main():
             from crosshair.core_and_libs import analyze_function, run_checkables
             from crosshair.options import AnalysisOptionSet, AnalysisKind
             from crosshair.statespace import MessageType
+            from crosshair.libimpl import builtinslib
             if cell.get("ieee"):
-                from crosshair.libimpl import builtinslib
                 builtinslib._PYTYPE_TO_WRAPPER_TYPE[float] = ((builtinslib.PreciseIeeeSymbolicFloat, 1.0),)
+            else:
+                # CrossHair's default mixes 98% real-based / 2% IEEE-precise float models; cells
+                # that are not about rounding use the real-based model only (stated per cell)
+                builtinslib._PYTYPE_TO_WRAPPER_TYPE[float] = ((builtinslib.RealBasedSymbolicFloat, 1.0),)
+            # CrossHair caps the *reported* status at "unknown" whenever a real-based float was
+            # created (honesty about reals-vs-IEEE), which hides whether the path tree was
+            # exhausted.  Observe exhaustion and per-path statuses at the search tree itself.
+            from crosshair import statespace as _ss
+            tree = {"exhausted": False, "unknown_paths": 0, "confirmed_paths": 0, "capped": False}
+            _orig_bubble = _ss.StateSpace.bubble_status
+
+            def _bubble(self, analysis):
+                vs = analysis.verification_status
+                if vs == _ss.VerificationStatus.UNKNOWN:
+                    tree["unknown_paths"] += 1
+                elif vs == _ss.VerificationStatus.CONFIRMED:
+                    tree["confirmed_paths"] += 1
+                if self.status_cap is not None:
+                    tree["capped"] = True
+                ret = _orig_bubble(self, analysis)
+                tree["exhausted"] = bool(ret[1])
+                return ret
+
+            _ss.StateSpace.bubble_status = _bubble
             st = Counter()
             opts = AnalysisOptionSet(
                 per_condition_timeout=budget,
@@ -89,6 +113,7 @@ def main():
             fn = cell["fn"]
             msgs = list(run_checkables(analyze_function(fn, opts)))
             res["paths"] = st.get("num_paths", 0)
+            res["tree"] = tree
             res["messages"] = [(m.state.name, m.message) for m in msgs]
             states = [m.state for m in msgs]
             if not msgs:
@@ -110,6 +135,12 @@ def main():
                     res["message"] = msgs[0].message
             elif all(s == MessageType.CONFIRMED for s in states):
                 res["status"] = "confirmed"
+            elif (len(msgs) == 1 and states[0] == MessageType.CANNOT_CONFIRM and tree["exhausted"]
+                  and tree["unknown_paths"] == 0 and tree["confirmed_paths"] > 0 and tree["capped"] and not cell.get("ieee")):
+                # every path of the exhausted tree passed; only CrossHair's real-float cap
+                # prevented the word "Confirmed"
+                res["status"] = "confirmed"
+                res["float_model"] = "real-based (exhausted path tree; CrossHair status capped)"
             else:
                 res["status"] = "inconclusive"
                 res["message"] = "; ".join(m.message for m in msgs)
